@@ -21,6 +21,7 @@ type ClientServerStream struct {
 
 	serverSend chan any
 	clientSend chan any
+	closeSend  sync.Once  // clientSend is closed by the first CloseSend only
 	trailerM   sync.Mutex // guards trailer, which may be read (after a context cancellation) while the handler is still running
 	trailer    metadata.MD
 	closed     context.CancelFunc
@@ -101,7 +102,10 @@ func (c *clientStream) Trailer() metadata.MD {
 }
 
 func (c *clientStream) CloseSend() error {
-	close(c.clientSend)
+	// like a real client stream, closing the send direction again is not an error
+	c.closeSend.Do(func() {
+		close(c.clientSend)
+	})
 	return nil
 }
 
